@@ -163,8 +163,24 @@ Mutations ==
                     \cup { [base |-> ps, kind |-> "next", at |-> offs[k], b |-> SetAt(b, offs[k], v)] : v \in NextValues(b[offs[k]]) }
                     : k \in 1..Len(offs) }
           : ps \in BaseLists }
+\* nested structures (3.3.2 transform substructure, 3.3.5 transform attributes): an SA payload whose first transform carries raw attribute
+\* octets - fixed (AF=1, 4 octets) and variable length (AF=0, 4 + length octets) attributes of several types, every length menu value, with and
+\* without value octets behind them, alone, after another attribute and before the Key Length attribute; all enclosing lengths are consistent.
+\* The specification demands nothing of these but a verdict (v = "any"): a parser must finish on them and fail, if at all, with a protocol error.
+Attr(af, ty, lv, body) == U16((IF af THEN 32768 ELSE 0) + ty) \o U16(lv) \o body
+AttrMenu == { Attr(af, ty, lv, body) : af \in BOOLEAN, ty \in {0, 1, 14, 32767}, lv \in {0, 1, 2, 3, 4, 5, 8, 65535}, body \in {<<>>, Rep(0, 8), <<1, 2, 3, 4>>} }
+AttrLists == AttrMenu \cup { Attr(TRUE, 1, 5, <<>>) \o a : a \in AttrMenu } \cup { a \o Attr(TRUE, 14, 128, <<>>) : a \in AttrMenu }
+RawTransform(ty, id, attrs, last) == LET body == U8(ty) \o U8(0) \o U16(id) \o attrs IN U8(IF last THEN 0 ELSE 3) \o U8(0) \o U16(Len(body) + 4) \o body
+RawSa(ts, n) == LET pbody == U8(1) \o U8(1) \o U8(0) \o U8(n) \o ts
+                    prop == U8(0) \o U8(0) \o U16(Len(pbody) + 4) \o pbody
+                IN U8(0) \o U8(0) \o U16(Len(prop) + 4) \o prop
+AttrMutations == { [base |-> <<P(33, FALSE, [proposals |-> <<>>])>>, kind |-> "attr", at |-> 17,
+                    b |-> RawSa(RawTransform(1, 12, a, FALSE) \o RawTransform(3, 12, <<>>, FALSE) \o RawTransform(2, 5, <<>>, FALSE) \o RawTransform(4, 19, <<>>, TRUE), 4)]
+                   : a \in AttrLists }
 \* the chain parser is total: it delivers a verdict on every mutant
 ASSUME Mode = "mutations" => \A m \in Mutations : ParseChain(m.b, FirstType(m.base, 0)).v \in {"ok", "syntax", "critical"}
+\* the generic chain around the raw substructures is well formed: one SA payload that ends exactly at the end of the data
+ASSUME Mode = "mutations" => \A m \in AttrMutations : ParseChain(m.b, 33).v = "ok" 
 
 \* ------------------------------------------------------------------------------------------------ vectors
 MsgVec(h, ps) == [h |-> h, ps |-> ps, b |-> EncMessage(h, ps)]
@@ -174,7 +190,8 @@ Vectors ==
     [] Mode = "mutations" -> [muts |-> { [first |-> FirstType(m.base, 0), kind |-> m.kind, at |-> m.at, b |-> m.b,
                                           v |-> ParseChain(m.b, FirstType(m.base, 0)).v,
                                           bodies_fit |-> \A i \in 1..Len(ParseChain(m.b, FirstType(m.base, 0)).items) : ParseChain(m.b, FirstType(m.base, 0)).items[i].fits]
-                                         : m \in Mutations }]
+                                         : m \in Mutations }
+                                     \cup { [first |-> 33, kind |-> m.kind, at |-> m.at, b |-> m.b, v |-> "any", bodies_fit |-> TRUE] : m \in AttrMutations }]
     [] Mode = "sk" -> [sk |-> { [n |-> n, icv |-> icv, f |-> SkFraming(n, 16, icv)] : n \in 0..48, icv \in {12, 16, 32} }]
 ASSUME OutFile = "" \/ JsonSerialize(OutFile, Vectors)
 
